@@ -91,6 +91,9 @@ def parse_manifest(kind, data: bytes):
         names = []
         raw = cp.get("options", "install_requires", fallback="") if cp.has_section("options") else ""
         lines = [l for l in raw.split("\n") if l.strip()]
+        if raw.strip().startswith("file:"):
+            # setuptools' `file:` directive: every comma separated item names a FILE holding requirements, none is a requirement
+            return True, [], {"file_directive": [x.strip() for x in raw.strip()[5:].split(",") if x.strip()]}
         if len(lines) == 1 and raw.strip() and not raw.startswith("\n"):  # value on the key's own line = inline list
             # inline list: setuptools splits a single line at commas... but a requirement may itself hold commas in its
             # specifier; setuptools' own rule: one line -> split on ';'-free commas only when no newline is present
@@ -127,7 +130,7 @@ def lines_preserved(before: bytes, after: bytes):
 class C14(Check):
     id = "C14"
     level = "exploration"
-    rule = ("experiment = one trigger file of a dependency-adding codemod (5 codemods) + 0-4 manifests drawn from the fixed 55-shape "
+    rule = ("experiment = one trigger file of a dependency-adding codemod (5 codemods) + 0-4 manifests drawn from the fixed 96-shape "
             "manifest corpus (4 formats) placed at root / sub-directories x directory enumeration permutation (store discovery order) x "
             "history (run, identical re-run) x unwritable-manifest faults (EACCES / EROFS at open-for-write on each store in turn, on all "
             "stores, or none present); non-trivial = the codemod changed the source file, i.e. a dependency was actually needed; "
@@ -140,7 +143,7 @@ class C14(Check):
     budgets = {"quick": {"n": 110, "wall": 170}, "thorough": {"n": 1500, "wall": 1500}}
 
     def extra_batches(self, tier):
-        """every manifest shape alone with the codemod most relevant to it (55 fixed experiments)"""
+        """every manifest shape alone with the codemod most relevant to it (one fixed experiment per shape)"""
         exps = []
         import random
 
